@@ -128,6 +128,28 @@ class _Continue(Exception):
     pass
 
 
+def _toplevel_fillers(tree, name):
+    """Module-level statements (after the first assignment of `name`) that mutate the container bound to `name`."""
+    out, seen = [], False
+    for st in tree.body:
+        if isinstance(st, (ast.Assign, ast.AnnAssign)) and any(isinstance(t, ast.Name) and t.id == name for t in (st.targets if isinstance(st, ast.Assign) else [st.target])):
+            seen = True
+            out = []
+            continue
+        if not seen or isinstance(st, (ast.FunctionDef, ast.ClassDef, ast.Import, ast.ImportFrom, ast.AsyncFunctionDef)):
+            continue
+        touches = False
+        for n in ast.walk(st):
+            if isinstance(n, ast.Subscript) and isinstance(n.ctx, ast.Store) and isinstance(n.value, ast.Name) and n.value.id == name:
+                touches = True
+            if isinstance(n, ast.Call) and isinstance(n.func, ast.Attribute) and isinstance(n.func.value, ast.Name) and n.func.value.id == name and \
+                    n.func.attr in ("update", "append", "extend", "setdefault", "insert", "pop", "clear"):
+                touches = True
+        if touches and not isinstance(st, (ast.Assign, ast.AnnAssign)) or (touches and isinstance(st, ast.Assign)):
+            out.append(st)
+    return out
+
+
 def assigned_names(stmts):
     out = []
 
@@ -241,6 +263,18 @@ class Evaluator:
                 if nm == name:
                     # names the value depends on are resolved lazily through const()
                     val = self.expr(vnode, fr)
+            # a table that is filled by module-level statements (a `for` loop, `TABLE[k] = v`, TABLE.update(...)) after its
+            # first assignment: those statements are evaluated in order on top of the initial value
+            fillers = _toplevel_fillers(m.tree, name)
+            if fillers and isinstance(val, (dict, list)):
+                try:
+                    fr.env[name] = val
+                    for st in fillers:
+                        if self.stmt(st, fr):
+                            break
+                    val = fr.env.get(name, val)
+                except (AnalysisError, _ExprRaise, _Break, _Continue, RecursionError):
+                    val = tm.unk("module-level construction of %s.%s not modelled" % key)
             # module-level mutation by functions (`global X`) makes X non-constant
             if self._is_global_mutated(m, name):
                 val = T("global", (modname + "." + name,), tm.tyof(val) if val is not None else tm.ANY)
@@ -436,6 +470,23 @@ class Evaluator:
     def assign(self, t, v, fr):
         if isinstance(t, ast.Name):
             fr.env[t.id] = v
+        elif isinstance(t, (ast.Tuple, ast.List)) and any(isinstance(e, ast.Starred) for e in t.elts):
+            # a, *rest, z = seq: positions before / after the starred name, the slice in between
+            k = [i for i, e in enumerate(t.elts) if isinstance(e, ast.Starred)][0]
+            after = len(t.elts) - k - 1
+            seq0 = _concrete_iter(v) if not isinstance(v, (str, bytes, dict)) else None
+            if seq0 is not None and len(seq0) >= len(t.elts) - 1:
+                for e, x in zip(t.elts[:k], seq0[:k]):
+                    self.assign(e, x, fr)
+                self.assign(t.elts[k].value, list(seq0[k:len(seq0) - after]), fr)
+                for e, x in zip(t.elts[k + 1:], seq0[len(seq0) - after:]):
+                    self.assign(e, x, fr)
+            else:
+                for i, e in enumerate(t.elts[:k]):
+                    self.assign(e, tm.idx(v, i), fr)
+                self.assign(t.elts[k].value, tm.slc(v, k, -after if after else None), fr)
+                for j, e in enumerate(t.elts[k + 1:]):
+                    self.assign(e, tm.idx(v, -(after - j)), fr)
         elif isinstance(t, (ast.Tuple, ast.List)):
             n = len(t.elts)
             if isinstance(v, (tuple, list)) and len(v) == n:
@@ -606,7 +657,13 @@ class Evaluator:
             handled.append((h, names))
         fr.trystack.append([n for _, ns in handled for n in ns])
         pre_env = clone(fr.env)
+        pre_facts = list(fr.facts)
+        marks0 = (len(fr.summary.calls), len(fr.summary.hazards))
         body_done = self.block(st.body, fr)
+        # a body that made no call and met no raising primitive (e.g. a lookup that was decided on constants) cannot raise
+        # anything beyond its explicit exits: no opaque `except` flow is needed for it
+        body_inert = (len(fr.summary.calls), len(fr.summary.hazards)) == marks0 and not any(
+            isinstance(n, (ast.Call, ast.BinOp, ast.Attribute, ast.Await, ast.Yield)) for b in st.body for n in ast.walk(b)) and len(fr.summary.exits) == n0
         fr.trystack.pop()
         if not body_done and st.orelse:
             body_done = self.block(st.orelse, fr)
@@ -621,7 +678,7 @@ class Evaluator:
         def run_handler(h, names, extra_guard, facts):
             fh = fr.fork()
             fh.guard = list(fr.guard) + list(extra_guard)
-            fh.facts = list(fr.facts) + list(facts)
+            fh.facts = list(pre_facts) + list(facts)  # what held before the try: the body's own facts do not hold where it raised
             fh.env = clone(pre_env)
             for nm in assigned_names(st.body):
                 if nm in fr.env and not tm.veq(fr.env.get(nm), pre_env.get(nm)):
@@ -639,6 +696,8 @@ class Evaluator:
             return fh, hd, hexits
 
         for h, names in handled:
+            if body_inert:
+                break
             g = T("except", (tuple(names), _try_key(st)), tm.BOOL)
             fh, hd, hexits = run_handler(h, names, [g], [])
             new_exits.extend(hexits)
@@ -667,6 +726,7 @@ class Evaluator:
             # only handler flows continue
             g, fh = live[0]
             fr.env = fh.env
+            fr.facts = [f for f in fh.facts if all(any(tm.veq(f, x) for x in f2.facts) for g2, f2 in live[1:])]
             for g2, f2 in live[1:]:
                 for k in f2.env:
                     if not tm.veq(fr.env.get(k), f2.env[k]):
@@ -678,6 +738,9 @@ class Evaluator:
                 b = fr.env.get(k, T("undef", (k,)))
                 if not tm.veq(a, b):
                     fr.env[k] = self.merge(g, a, b)
+        if live:
+            # flows that went through a handler rejoin here: only facts common to all of them survive
+            fr.facts = [f for f in fr.facts if all(any(tm.veq(f, x) for x in fh.facts) for g, fh in live)]
         return False
 
     # ---- loops
@@ -882,7 +945,7 @@ class Evaluator:
         if m is None:
             raise AnalysisError("expression kind not modelled: %s at %s:%d" % (type(e).__name__, fr.modname, e.lineno))
         r = m(e, fr)
-        if isinstance(r, T) and r.op == "raise" and r.args and isinstance(r.args[0], str) and r.args[0] in ("ValueError",) and fr.fi is not None and fr.loopdepth == 0:
+        if isinstance(r, T) and r.op == "raise" and r.args and isinstance(r.args[0], str) and r.args[0] in ("ValueError", "KeyError", "IndexError") and fr.fi is not None and fr.loopdepth == 0:
             raise _ExprRaise(r.args[0])
         if self.bind and isinstance(r, T):
             if r in self.bind:
@@ -1146,6 +1209,10 @@ class Evaluator:
                 return T("slice3", (tm._fz(base), lo, hi, step), tm.tyof(base))
             return tm.slc(base, lo, hi)
         key = self.expr(e.slice, fr)
+        if isinstance(key, slice):  # x[slice(a, b)] is x[a:b]
+            if key.step in (None, 1):
+                return tm.slc(base, key.start, key.stop)
+            return T("slice3", (tm._fz(base), key.start, key.stop, key.step), tm.tyof(base))
         self._cur, self._curnode = fr, e
         if isinstance(base, T) and base.op == "ite":
             return tm.ite(base.args[0], self.index(_unfz(base.args[1]), key), self.index(_unfz(base.args[2]), key))
@@ -1630,6 +1697,10 @@ class Evaluator:
         if n == "dict":
             if not pos:
                 return dict(kw)
+            if len(pos) == 1 and not kw:
+                seq1 = (list(a0.items()) if isinstance(a0, dict) else _concrete_iter(a0)) if not isinstance(a0, (str, bytes)) else None
+                if seq1 is not None and all(isinstance(x, (tuple, list)) and len(x) == 2 and tm.is_conc(x[0]) and not isinstance(x[0], (list, dict)) for x in seq1):
+                    return {x[0]: x[1] for x in seq1}
             return NotImplemented
         if n in ("min", "max"):
             if all(isinstance(p, int) for p in pos) and len(pos) > 1:
@@ -1678,6 +1749,20 @@ class Evaluator:
             return T("typeof", (a0,))
         if n == "isinstance":
             return T("isinstance", (tm._fz(a0), tm._fz(pos[1])), tm.BOOL)
+        if n == "slice" and 1 <= len(pos) <= 3 and all(x is None or (isinstance(x, int) and not isinstance(x, bool)) for x in pos):
+            return slice(*pos)
+        if n == "vars" and len(pos) == 1 and isinstance(a0, T) and a0.op == "modref" and a0.args[0] in self.prog.modules:
+            m = self.prog.modules[a0.args[0]]
+            out = {}
+            for nm in m.assigns:  # module-level constants, in definition order
+                out[nm] = self.const(a0.args[0], nm)
+            return out
+        if n == "zip" and pos and all(_concrete_iter(x) is not None and not isinstance(x, dict) for x in pos):
+            return [tuple(t) for t in zip(*[_concrete_iter(x) for x in pos])]
+        if n == "dict" and len(pos) == 1 and not kw:
+            seq0 = _concrete_iter(a0) if not isinstance(a0, (dict, str, bytes)) else (list(a0.items()) if isinstance(a0, dict) else None)
+            if seq0 is not None and all(isinstance(x, (tuple, list)) and len(x) == 2 and tm.is_conc(x[0]) and not isinstance(x[0], (list, dict)) for x in seq0):
+                return {x[0]: x[1] for x in seq0}
         if n == "vars" and len(pos) == 1 and self.objects and isinstance(a0, T):
             for k, d in self.objects.items():
                 if tm.veq(k, a0):
